@@ -2,6 +2,7 @@ SPECIFICATION Spec
 CONSTANTS
   MinN = 0
   MaxN = 5
+  TwinMaxN = 4
 CONSTRAINT Export
 INVARIANT ImplRefinesReq
 INVARIANT ImplCallsDistinct
